@@ -50,6 +50,9 @@ int main() {
     return rc == 1, out
 
 
+replay_bends.per_trace = True
+
+
 def jobs(tier):
     js = []
     pre = prelude("avoid_geomtypes.h")
